@@ -457,5 +457,13 @@ def r13_7(ctx):
     delegate(ctx, c12.r12_2, lambda c: "_old_vals_contents/records" in c)
 
 
+def r13_8(ctx):
+    """R13.8 an existing destination that cannot be decoded is simply different: _contents_eq() answers False instead of raising when
+    the file on disk is not valid text in the configured encoding (C12 R12.11) - the output is then rewritten, not abandoned."""
+    from . import c12
+    from .common import delegate
+    delegate(ctx, c12.r12_11, lambda c: "_contents_eq" in c)
+
+
 def rules():
-    return [("R13.7", r13_7, 1), ("R13.6", r13_6, 4), ("R13.5", r13_5, 3), ("R13.1", r13_1, 6), ("R13.1b", r13_1b, 2), ("R13.2", r13_2, 4), ("R13.3", r13_3, 4), ("R13.4", r13_4, 3)]
+    return [("R13.8", r13_8, 1), ("R13.7", r13_7, 1), ("R13.6", r13_6, 4), ("R13.5", r13_5, 3), ("R13.1", r13_1, 6), ("R13.1b", r13_1b, 2), ("R13.2", r13_2, 4), ("R13.3", r13_3, 4), ("R13.4", r13_4, 3)]
